@@ -152,12 +152,20 @@ contract("artap.algorithm_sweep:SweepAlgorithm.run", props=["C05"], options=_MUL
              "forall(lambda t: self.problem.individuals[t] is old(self.problem.individuals[t]), 0, old(len(self.problem.individuals)))",
              "forall(lambda t: self.problem.individuals[t].state == 2 and fresh(self.problem.individuals[t]) and "
              "self.problem.individuals[t].ghost_evals == 1, old(len(self.problem.individuals)), len(self.problem.individuals))",
+             # one recorded design per generated vector (repeated vectors included): gvecs is the generator's output
+             "len(self.problem.individuals) == old(len(self.problem.individuals)) + len(gvecs)",
          ],
+         ghost_results={"gvecs": "List[List[Real]]"},
+         ghost={"after:vectors = self.generator.generate()": ["gvecs = vectors"],
+                "before:self.evaluate(individuals)": ["glen = len(individuals)", "assert len(gvecs) == glen",
+                                                      "assert len(self.problem.individuals) == old(len(self.problem.individuals)) + glen"],
+                "after:self.evaluate(individuals)": ["assert len(gvecs) == glen",
+                                                     "assert len(self.problem.individuals) == old(len(self.problem.individuals)) + glen"]},
          raises={"RuntimeError": [], "OtherError": []},
          loops={1: ["len(individuals) == _k", "_k <= len(vectors)", "fresh(individuals)", "stable(vectors)", "new_inds(individuals, _k)",
                     "forall(lambda i: seq_eq(individuals[i].vector, vectors[i]) and individuals[i].ghost_evals == 0, 0, _k)",
                     "prob_wf(self.problem)", "unchanged(self.problem.individuals)"],
-                2: ["stable(individuals)", "_k <= len(individuals)",
+                2: ["stable(individuals)", "_k <= len(individuals)", "stable(vectors)", "len(individuals) == len(vectors)", "gvecs is vectors",
                     "len(self.problem.individuals) == old(len(self.problem.individuals)) + _k",
                     "forall(lambda t: self.problem.individuals[t] is old(self.problem.individuals[t]), 0, old(len(self.problem.individuals)))",
                     "forall(lambda t: self.problem.individuals[old(len(self.problem.individuals)) + t] is individuals[t], 0, _k)",
